@@ -888,10 +888,12 @@ fn run_inst<T: Sc>(line: &Line, idx: usize, pools: &Pools, opts: &Opts, rep: &mu
                 .collect(),
         });
         let mrhs = inst.s >= 2;
-        let flav = format!("{} column-scaled twin ({} x 2^{})", tag(idx, &fam, T::NAME, Kind::Table, mrhs, false, EpsVar::Default), if all { "all functions".to_string() } else { format!("function {}", jcol) }, sexp);
+        let twin_par = (idx / 3) % 2 == 1;
+        let flav = format!("{} column-scaled twin ({} x 2^{})", tag(idx, &fam, T::NAME, Kind::Table, mrhs, twin_par, EpsVar::Default), if all { "all functions".to_string() } else { format!("function {}", jcol) }, sexp);
         // the twin's matrix is another matrix: the health of ITS decomposition decides whether it is judged
         let twin_health = health_of_table(&scaled, wref);
-        if let Ok(mut twin) = build_problem(TableModel::new(scaled, &a_first), mrhs, false, &inst.y, wref, twin_eps) {
+        // (every other twin through the parallel constructors: size and scale dependent paths exist in both copies)
+        if let Ok(mut twin) = build_problem(TableModel::new(scaled, &a_first), mrhs, twin_par, &inst.y, wref, twin_eps) {
             for &qi in order.iter().take(npts) {
                 let pt = &inst.line.pts[qi];
                 if !(pt.rank == mfull && pt.lvl >= 2 && inst.healthy[qi]) {
@@ -926,6 +928,12 @@ fn run_inst<T: Sc>(line: &Line, idx: usize, pools: &Pools, opts: &Opts, rep: &mu
                     rep.check("C02", wr <= 1e-5, wr, || det("residuals change when a basis function is rescaled", wr));
                 } else {
                     rep.violation("C01", det("coefficients or residuals absent although every value of the rescaled model is finite", 0.0));
+                    if twin_par {
+                        rep.violation("C11", det("the parallel problem exposes nothing where the sequential problem (every value finite) has coefficients and residuals", 0.0));
+                    }
+                }
+                if twin_par {
+                    rep.ok("C11", 0.0);
                 }
                 let jac = twin.jacobian();
                 if jac.is_none() {
@@ -1434,6 +1442,130 @@ fn subnormal_probe<T: Sc>(rep: &mut Report) {
     }
 }
 
+/// C10: a long history.  K parameter updates (with residual queries only) between two Jacobian queries,
+/// for K around the wrap-around points of small counters; the Jacobian afterwards is the one of a fresh
+/// problem at the parameters in effect, bit for bit.
+fn long_history_probe<T: Sc>(rep: &mut Report) {
+    let n = 6usize;
+    for par in [false, true] {
+        for k in [255usize, 256, 257, 512, 65536] {
+            let a0 = [0.3f64, 0.6];
+            let Ok(mut prob) = build_problem(RationalModel::<T>::new(n, &a0), false, par, &DMatrix::from_fn(n, 1, |i, _| T::of64(1.0 + (i % 3) as f64)), None, None) else {
+                rep.tool_error("long history probe: cannot build".into());
+                continue;
+            };
+            let _ = prob.jacobian();
+            let mut last = vec![T::of64(a0[0]), T::of64(a0[1])];
+            for step in 0..k {
+                last = vec![T::of64(0.3 + 0.01 * ((step * 7 + 1) % 13) as f64), T::of64(0.6 + 0.02 * ((step * 5 + 2) % 11) as f64)];
+                prob.set_params(&last);
+                if step % 64 == 0 {
+                    let _ = prob.residuals();
+                }
+            }
+            let o = observe(prob.as_ref());
+            let a_end: Vec<f64> = last.iter().map(|v| v.to64()).collect();
+            if let Ok(fresh) = build_problem(RationalModel::<T>::new(n, &a_end), false, par, &DMatrix::from_fn(n, 1, |i, _| T::of64(1.0 + (i % 3) as f64)), None, None) {
+                rep.check("C10", obs_bits_eq(&o, &observe(fresh.as_ref())), 0.0, || {
+                    json!({"flavour": format!("long history probe {} par={} updates={}", T::NAME, par, k), "what": "state after a long history differs from a fresh problem at the parameters in effect"})
+                });
+            }
+        }
+    }
+    rep.count("long_history_probes", 1);
+}
+
+/// C03 / C11 beyond the enumerated universe: MANY parameters (P = 8 and 10, one per basis function) on
+/// short (M < N < 2M) and tall shapes.  Certificates: every Jacobian column orthogonal to the weighted
+/// basis functions, 2 J^T r = gradient of |r|^2 by central differences in every parameter; the parallel
+/// problem (pools of 2 and 3 threads, fewer than P) and its `into_sequential` form agree with the
+/// sequential problem.
+fn many_parameters_probe<T: Sc>(rep: &mut Report) {
+    if T::NAME != "f64" {
+        return;
+    }
+    let pools: Vec<rayon::ThreadPool> = [2usize, 3].iter().map(|&t| rayon::ThreadPoolBuilder::new().num_threads(t).build().unwrap()).collect();
+    for (p, n, weighted, s) in [(8usize, 12usize, false, 1usize), (8, 12, true, 2), (10, 15, true, 1), (8, 40, true, 1)] {
+        let a0: Vec<f64> = (0..p).map(|k| 0.5 + 0.1 * k as f64).collect();
+        let model0 = RationalModel::<T>::new(n, &a0);
+        let w: Option<Vec<T>> = if weighted { Some((0..n).map(|i| T::of64(0.5 + ((i * 3) % 5) as f64 / 4.0)).collect()) } else { None };
+        let y = DMatrix::from_fn(n, s, |i, q| T::of64(1.0 + 0.3 * ((i * 7 + q * 5) % 11) as f64 - 0.1 * i as f64));
+        let flav = format!("many parameters probe M=P={} N={} S={} weighted={}", p, n, s, weighted);
+        let det = |what: &str, dv: f64| json!({"flavour": flav, "what": what, "dev": dv});
+        let mk = |par: bool| build_problem(RationalModel::<T>::new(n, &a0), s >= 2, par, &y, w.as_deref(), None);
+        let (Ok(mut seq), Ok(par)) = (mk(false), mk(true)) else {
+            rep.tool_error(format!("cannot build {flav}"));
+            continue;
+        };
+        let os = observe(seq.as_ref());
+        let (Some(jm), Some(r)) = (os.jm.clone(), os.r.clone()) else {
+            rep.violation("C03", det("jacobian absent although the model evaluates", 0.0));
+            continue;
+        };
+        let phi = model0.phi64(&a0);
+        {
+            // judged only where the decomposition itself is healthy (known finding D4)
+            let pw = DMatrix::from_fn(n, p, |i, j| T::of64(w.as_ref().map(|w| w[i].to64()).unwrap_or(1.0) * phi[(i, j)]));
+            if !svd_healthy(&pw) {
+                rep.count("many_parameters_probe_unhealthy_svd", 1);
+                continue;
+            }
+        }
+        let wi = |i: usize| w.as_ref().map(|w| w[i].to64()).unwrap_or(1.0);
+        let jn = jm.iter().fold(0.0f64, |a, v| a + v.to64() * v.to64()).sqrt().max(1e-300);
+        let mut worst_orth = 0.0f64;
+        for k in 0..p {
+            for q in 0..s {
+                for j in 0..p {
+                    let mut dot = 0.0;
+                    let mut nrm = 0.0;
+                    for i in 0..n {
+                        dot += wi(i) * phi[(i, j)] * jm[(q * n + i, k)].to64();
+                        nrm += (wi(i) * phi[(i, j)]).powi(2);
+                    }
+                    worst_orth = nmax(worst_orth, dot.abs() / (nrm.sqrt() * jn));
+                }
+            }
+        }
+        rep.check("C03", worst_orth <= 1e-8, worst_orth, || det("a Jacobian column is not orthogonal to the range of the weighted basis matrix", worst_orth));
+        let mut worst_g = 0.0f64;
+        for k in 0..p {
+            let grad: f64 = 2.0 * (0..n * s).map(|i| jm[(i, k)].to64() * r[i].to64()).sum::<f64>();
+            let h = 1e-6;
+            let mut f_at = |d: f64| -> Option<f64> {
+                let mut a: Vec<T> = a0.iter().map(|&v| T::of64(v)).collect();
+                a[k] = T::of64(a0[k] + d);
+                seq.set_params(&a);
+                seq.residuals().map(|rr| rr.iter().map(|v| v.to64() * v.to64()).sum())
+            };
+            if let (Some(fp), Some(fm)) = (f_at(h), f_at(-h)) {
+                let fd = (fp - fm) / (2.0 * h);
+                let scale = r.iter().map(|v| v.to64().powi(2)).sum::<f64>().max(1e-300);
+                worst_g = nmax(worst_g, (grad - fd).abs() / scale.max(grad.abs()).max(fd.abs()));
+            }
+        }
+        let a_t: Vec<T> = a0.iter().map(|&v| T::of64(v)).collect();
+        seq.set_params(&a_t);
+        rep.check("C03", worst_g <= 1e-5, worst_g, || det("2 J^T r is not the gradient of the projected objective (central differences in every parameter)", worst_g));
+        // parallel in pools smaller than P, and the sequential form of the parallel problem
+        let mut par = par;
+        for pool in pools.iter() {
+            let op = pool.install(|| {
+                par.set_params(&a_t);
+                observe(par.as_ref())
+            });
+            let dv = obs_close(&os, &op);
+            rep.check("C11", dv <= 1e-9, dv, || det("parallel problem (pool smaller than P) differs from the sequential problem", dv));
+        }
+        let conv = par.into_seq();
+        let oc = observe(conv.as_ref());
+        let dv = obs_close(&os, &oc);
+        rep.check("C11", dv <= 1e-9, dv, || det("into_sequential of the parallel problem differs from the sequential problem", dv));
+        rep.check("C03", dv <= 1e-9, dv, || det("Jacobian of the sequential form of a parallel problem differs from the sequential problem's", dv));
+        rep.count("many_parameters_probes", 1);
+    }
+}
+
 /// the probes beyond the enumerated universe (also available on their own: subcommand `probes`)
 pub fn run_probes(total: &mut Report) {
     signed_zero_probe::<f64>(total);
@@ -1442,6 +1574,9 @@ pub fn run_probes(total: &mut Report) {
     nan_parameter_probe::<f32>(total);
     subnormal_probe::<f64>(total);
     subnormal_probe::<f32>(total);
+    long_history_probe::<f64>(total);
+    long_history_probe::<f32>(total);
+    many_parameters_probe::<f64>(total);
     many_functions_probe::<f64>(total);
     many_columns_probe::<f64>(total);
     many_columns_probe::<f32>(total);
